@@ -264,4 +264,12 @@ returned": `eqv` is value equality (Python `==`), `drv` the driver -/
 def WriteMirrors (eqv : V → V → Prop) (drv : V → V) (v : V) (driverGot : Option V) (entry : Option (Item V)) : Prop :=
   ∃ v', driverGot = some v' ∧ eqv v' v ∧ ∃ r ts, entry = some ⟨.value r, ts⟩ ∧ eqv r (drv v')
 
+/-- monitor of the second sentence on one observed write: `got` lists the values the driver's write function was
+called with (exactly one call is expected), `returned` is what that call returned, `entry` the client's cache entry
+afterwards; `eqb` decides value equality -/
+def writeOkB (eqb : V → V → Bool) (v : V) (got : List V) (returned : V) (entry : Option (Item V)) : Bool :=
+  match got, entry with
+  | [v'], some ⟨.value r, _⟩ => eqb v' v && eqb r returned
+  | _, _ => false
+
 end Frappy.Spec.C12
